@@ -43,7 +43,7 @@ bool sqf::parser::config::parser::apply_to_confighost(::sqf::parser::config::bis
            } break;
            case ::sqf::parser::config::bison::astkind::CLASS: {
                auto nav = parent.append_or_replace(node.children[0].token.contents);
-               for (auto subnode : node.children[1].children)
+               for (auto& subnode : node.children[1].children)
                {
                    apply_to_confighost(subnode, confighost, nav);
                }
@@ -59,7 +59,7 @@ bool sqf::parser::config::parser::apply_to_confighost(::sqf::parser::config::bis
                {
                    __log(err::InheritanceCycleRefused({ *node.token.path, node.token.line, node.token.column }, node.children[0].token.contents, node.children[1].token.contents));
                }
-               for (auto subnode : node.children[2].children)
+               for (auto& subnode : node.children[2].children)
                {
                    apply_to_confighost(subnode, confighost, nav);
                }
